@@ -97,7 +97,13 @@ def c02(tier, seed):
                     only=["call_site_received_wrong_values", "tawazi_returned_but_plain_python_raises", "value_only_to_be_passed_on_was_inspected"])
         # the consumers inside a COMPOSED DAG receive the values given for the inputs they depend on (inputs listed in any order)
         + [dict(kind="comp19", pid="C02", n_cases=(150 if tier == "quick" else 1500), only=["composed_value_differs_from_substituted_pipeline"],
-                **_seeds(seed + 67, k)) for k in range(2 if tier == "quick" else 6)],
+                **_seeds(seed + 67, k)) for k in range(2 if tier == "quick" else 6)]
+        # ... whoever makes the call: a worker thread, a node function of another DAG (main-thread nodes run on THAT thread and are
+        # waited for like everywhere else)
+        + [dict(kind="env", pid="C02", scenarios=["worker_thread", "reentrant"], n_cases=(60 if tier == "quick" else 500),
+                only=["per_execution_monitor_failed(call made by a non-main thread)(C02:*", "per_execution_monitor_failed(inner execution started from a node body)(C02:*",
+                      "call_from_worker_thread_returned_wrong_value", "dag_called_from_a_node_body_returned_wrong_value"],
+                **_seeds(seed + 69, k)) for k in range(2 if tier == "quick" else 6)],
         level="exploration", rule=RULE_SCHED + RULE_W3 + "; plus generated programs with nested DAGs (depth 2), operators, indexing and keyword "
         "arguments where every executed call site must receive exactly the reference's argument terms", assumptions=ASSUME_COMMON,
         required_reach=["c02_dep_edges", "c02_value_checks", "c10_dependent_arg_checks", "XENTER", "FENTER"], parallel=8 if tier == "quick" else 16,
